@@ -28,7 +28,7 @@ func hasSig(o *outcome, sig string) (bool, *violation) {
 		return false, nil
 	}
 	if o.res == nil {
-		if v, _ := classifyDeath(o); v != nil && v.Signature == sig {
+		if v, _ := classifyDeathFor(o, strings.SplitN(sig, "/", 2)[0]); v != nil && v.Signature == sig {
 			return true, v
 		}
 		return false, nil
